@@ -135,6 +135,14 @@ def make_section(rng, kind, idx, pa, pb):
         s.hunks = [gen.Hunk(0, 1, [('+', gen.rand_text(rng, 30, tabs_ok=False)) for _ in range(rng.randint(1, 3))])]
     elif kind == 'deleted':
         s.hunks = [gen.Hunk(1, 0, [('-', gen.rand_text(rng, 30, tabs_ok=False)) for _ in range(rng.randint(1, 3))])]
+    if kind in ('deleted', 'modified', 'renamed_changed') and s.hunks and rng.random() < (0.25 if kind == 'deleted' else 0.06):
+        # a removed submodule (git's default diff.submodule=short), or a text file whose hunk happens to begin like one:
+        # '-Subproject commit <hash>' without a '+' counterpart is an ordinary removed line of an ordinary hunk
+        h0 = s.hunks[0]
+        rest = [x for x in h0.lines[1:] if not (x[0] == '+' and x[1].startswith('Subproject commit'))] if kind != 'deleted' else []
+        if not (rest and rest[0][0] == '+'):
+            h0.lines = [('-', 'Subproject commit ' + ''.join(rng.choice('0123456789abcdef') for _ in range(40)))] + rest
+            s.classes.add('unpaired-subproject-line')
     for h in s.hunks:
         h.lines = [(kk, t) for kk, t in h.lines if kk != '\\']
         h.fragment = rng.choice(gen.FRAGMENTS + ['struct X {', 'a @@ b', '\tindented with tab', 'trailing space  '])
@@ -400,7 +408,7 @@ def run_item(item):
                     pos += 1     # an empty line may render as an empty row
                     continue
                 if not t.strip() and leading and not (pos < len(infos) and infos[pos].kind == 'code'
-                                                      and re.match(r'^[\s\d\u22ee\u2502:]*$', infos[pos].text)):
+                                                      and re.match(r'^[\s\d\u22ee\u2502:+-]*$', infos[pos].text)):
                     # the hunk has no header row, and the empty rows of its first lines went with the blank rows skipped above
                     continue
                 leading = leading and not t.strip()
